@@ -564,12 +564,34 @@ func (engine) Generate(seed uint64, index int, tier string) json.RawMessage {
 	if tot == 0 {
 		w[0], tot = 1, 1
 	}
-	narrowFirst := r.P(250)
-	if narrowFirst {
-		// the cache is populated under a narrow list of checks and used under
-		// a wide one right away
-		c.Flags.Checks = checkSets[2+r.N(len(checkSets)-2)]
-		c.Steps = append(c.Steps, Step{Op: "flag_checks", Pkg: 0, Arg: r.N(2), Seed: r.Next(), Strategy: 1 + r.N(4), Procs: []int{1, 2, 4, 8}[r.N(4)]})
+	// In 40% of the cases the cache is populated under one condition and
+	// used under the opposite one right away, along one dimension of the
+	// quantifier: the typical ways a user's second run differs from the
+	// first.
+	if r.P(400) {
+		first := Step{Pkg: r.N(npkg), Arg: 2 * r.N(500), Seed: r.Next(), Strategy: 1 + r.N(4), Procs: []int{1, 2, 4, 8}[r.N(4)]}
+		switch r.N(5) {
+		case 0, 1:
+			// a narrow list of checks, then a wide one
+			c.Flags.Checks = checkSets[2+r.N(len(checkSets)-2)]
+			first.Op, first.Arg = "flag_checks", r.N(2)
+		case 2:
+			// one package (also one that others import), then the module
+			c.Flags.Patterns = []int{r.N(npkg)}
+			first.Op = "patterns" // even Arg: back to ./...
+		case 3:
+			// with tests, then without (or the reverse)
+			first.Op = "flag_tests"
+		case 4:
+			if r.P(500) {
+				c.Flags.Go = goVersions[1+r.N(len(goVersions)-1)]
+				first.Op, first.Arg = "flag_go", 0
+			} else {
+				c.Flags.Tags = "extra"
+				first.Op = "flag_tags"
+			}
+		}
+		c.Steps = append(c.Steps, first)
 	}
 	for i := 0; i < n; i++ {
 		x := r.N(tot)
